@@ -280,7 +280,7 @@ let handle kind fs obs =
     tick "file_ok";
     (* theorem 2 on the observed slices *)
     let impl = split_on ',' (field ofs "r") in
-    let restricted = ref true and literal = ref true in
+    let restricted = ref true and literal = ref true and unexcused = ref false in
     List.iteri (fun i q ->
       let im = (try List.nth impl i with _ -> "?") in
       (match String.split_on_char '|' im with
@@ -378,7 +378,12 @@ let handle kind fs obs =
              | Some rva, Some vr ->
                (match fr with Ok _ -> tag "stored-slice" | _ -> ());
                let (r1, r2) = prefix_b secs rva fr vr c in
-               if not r1 then restricted := false; if not r2 then literal := false
+               if not r1 then restricted := false; if not r2 then literal := false;
+               (* F37 excuses a failing whole-slice prefix only for a slice that lies in a section whose OWN raw tail beyond
+                  VirtualSize holds a non-zero byte - not because some other section of the image is in the class *)
+               if not r2 then (match first_v secs rva with
+                 | Some s when raw_tail_not_mapped getF [s] -> ()
+                 | _ -> unexcused := true)
              | Some _, None -> (match fr with Ok _ -> restricted := false | _ -> ())
              | None, _ -> ())
           | "c", Some (Ok fr), _ when wf && mvo <> None ->
@@ -401,7 +406,7 @@ let handle kind fs obs =
     let lit_ok = roundtrip_ok && !literal in
     let cls = (if base_ok && not lit_ok then begin
         let c1 = stored_beyond_size_of_image soh soi secs and c2 = raw_tail_not_mapped getF secs in
-        if (roundtrip_ok || c1) && (!literal || c2) then
+        if (roundtrip_ok || c1) && (!literal || (c2 && not !unexcused)) then
           Some (if not roundtrip_ok then "stored_beyond_size_of_image" else "raw_tail_not_mapped")
         else None
       end else None) in
